@@ -80,8 +80,8 @@ let define name kind args =
 let show_v (v : xval) = match v with XV b -> Printf.sprintf "%Lx" (i64_of_z b) | XU -> "?"
 let show_l l = String.concat " " (List.map show_v l)
 let show_tag t = match t with
-  | TRawPad -> "rawpad" | TRawNeg -> "rawneg" | TUnaligned -> "unaligned" | TEmpty2 -> "empty2"
-  | TLincomRate -> "lincomrate" | TMplexRate -> "mplexrate" | TMplexNeg -> "mplexneg" | THere -> "here" | TAllocZero -> "alloczero" | TMplexSeek -> "mplexseek"
+  | TRawPad -> "rawpad" | TUnaligned -> "unaligned" | TEmpty2 -> "empty2"
+  | TMplexRate -> "mplexrate" | TMplexNeg -> "mplexneg" | TAllocZero -> "alloczero" | TMplexSeek -> "mplexseek"
 let zs v = Int64.to_string (i64_of_z v)
 let rec len_z l = List.length l
 
